@@ -51,6 +51,11 @@ PROGRAMS = {
         "    assert s['keep'] == outsource('%s')\n" % (_h(KEEP)[:12], KEEP)
     ),
     "twofiles": None,
+    "nopending": (
+        "from inline_snapshot import snapshot, outsource, external\n\n\n"
+        "def test_ok():\n    assert 1 == snapshot(1)\n    assert 4 <= snapshot(4)\n    assert 5 in snapshot([5])\n\n\n"
+        "def test_ext_keep():\n    assert outsource('%s') == snapshot(external('%s*.txt'))\n" % (KEEP, _h(KEEP)[:12])
+    ),
     "onlytrim": (
         "from inline_snapshot import snapshot, outsource, external\n\n\n"
         "def test_trim():\n    assert 4 <= snapshot(9)\n\n\n"
@@ -129,6 +134,8 @@ def pending(prog, cfg):
         return ()
     if prog == "onlytrim":
         return ("trim",)
+    if prog == "nopending":
+        return ()
     return CATS
 
 
@@ -158,6 +165,8 @@ def markers(prog, files):
                 "update": "'update':5" in t2}
     if prog == "onlytrim":
         return {"trim": "assert4<=snapshot(4)" in t2}
+    if prog == "nopending":
+        return {}
 
 
 def run_session(prog, cfg):
@@ -206,6 +215,11 @@ def judge(prog, cfg, ref_states):
         # (documented hazard of trimming on a partial run); the test files must still be untouched
         ra = {k: v for k, v in ra.items() if k.endswith(".py")}
         rb = {k: v for k, v in rb.items() if k.endswith(".py")}
+    if not A and prog == "nopending" and m["active"] and "trim" in m["flags"] and "short-report" not in m["flags"]:
+        # trim is a flag of this session: the unreferenced external may go, nothing else may change
+        u = ".inline-snapshot/external/%s.txt" % _h(UNUSED)
+        ra = {k: v for k, v in ra.items() if k != u}
+        rb = {k: v for k, v in rb.items() if k != u}
     if not A:
         if ra != rb:
             V("written-without-approval", _delta(rb, ra))
@@ -220,7 +234,11 @@ def judge(prog, cfg, ref_states):
     keep = ".inline-snapshot/external/%s.txt" % _h(KEEP)
     if keep not in ra or ra[keep] != KEEP:
         V("referenced-external-lost", keep)
-    if (unused in ra) != ("trim" not in A):
+    if prog == "nopending":
+        trim_ok = m["active"] and "trim" in m["flags"] and "short-report" not in m["flags"]
+        if unused not in ra and not trim_ok:
+            V("unused-external-removed-without-trim", unused)
+    elif (unused in ra) != ("trim" not in A):
         V("unused-external-" + ("removed-without-trim" if unused not in ra else "kept-despite-trim"), unused)
     ref = ref_states.get("+".join(sorted(A)))
     if ref is not None and prog == "canonical" and not cfg.get("xfail") and ref != ra:
@@ -310,7 +328,7 @@ def bounds(tier):
 
 
 def _progs(tier):
-    return ["canonical"] if tier == "quick" else ["canonical", "container", "twofiles", "onlytrim"]
+    return ["canonical", "nopending"] if tier == "quick" else ["canonical", "nopending", "container", "twofiles", "onlytrim"]
 
 
 def explore(tier, seed, runner):
@@ -327,6 +345,9 @@ def explore(tier, seed, runner):
     tasks = []
     for prog in _progs(tier):
         cs = cfgs if prog == "canonical" else [c for c in configs(tier) if not c.get("xdist") and not c.get("ci")]
+        if prog == "nopending":
+            cs = [c for c in cs if "short-report" in (c.get("cli") or []) + (c.get("env") or []) + (c.get("default") or []) or "trim" in (c.get("cli") or [])
+                  or c.get("answers") or not c.get("cli")][:: (1 if tier != "quick" else 2)]
         for i in range(0, len(cs), 6):
             tasks.append({"prog": prog, "cfgs": cs[i : i + 6], "ref": ref})
     for t, r in zip(tasks, runner(tasks)):
